@@ -352,7 +352,7 @@ class Ctx:
 
     def __init__(self, repo, tier):
         self.repo, self.tier = repo, tier
-        self.findings, self.facts, self.evals, self.sites = [], {}, 0, []
+        self.findings, self.facts, self.evals, self.sites, self.pending = [], {}, 0, [], []
 
     def fail(self, fn, node, msg, witness=None, stmt=None):
         self.findings.append(Finding(fn, node, msg, witness, stmt))
@@ -370,8 +370,9 @@ class Ctx:
             raise AnalysisError(msg)
 
     def at_least(self, n, got, what):
+        """deferred: a vanished instance makes the obligation ANALYSIS-ERROR only if no violation was positively identified"""
         if got < n:
-            raise AnalysisError('instance count for %s fell to %d (hand-confirmed minimum %d)' % (what, got, n))
+            self.pending.append('instance count for %s fell to %d (hand-confirmed minimum %d)' % (what, got, n))
 
 
 def load_known():
@@ -405,6 +406,8 @@ def run_obligation(ob, repo, tier, known):
     status, err = DISCHARGED, None
     try:
         ob.func(ctx)
+        if ctx.pending and not ctx.findings:
+            raise AnalysisError('; '.join(ctx.pending))
     except AnalysisError as e:
         status, err = ERROR, str(e)
     except RecursionError as e:
